@@ -193,6 +193,20 @@ func init() {
 						r.Cond(same, "C14.loop", FnName(ex)+"#Receive-current-state", c.Pos(), "messages are handed to the state that is current (the same value Next() is later called on)")
 					}
 				}
+				// the receive handler hands every message over (blocking send, no drop)
+				nH := 0
+				for _, cl := range ex.AnonFuncs {
+					sends := chanSends(cl)
+					if len(sends) == 0 {
+						continue
+					}
+					nH++
+					_, isSend := sends[0].In.(*ssa.Send)
+					r.Cond(len(sends) == 1 && isSend && len(Facts(sends[0].In.Block())) == 0 && Desc(sends[0].Val) == "P0", "C14.loop", FnName(cl)+"#blocking-send", cl.Pos(), "the receive handler forwards every message with an unconditional blocking send: messages arriving while a state is current reach that state")
+				}
+				if nH != 1 {
+					r.Undecided("C14.loop", FnName(ex)+"#handler", "receive handler not found")
+				}
 				// final result
 				for _, p := range SuccessReturns(ex) {
 					d := Desc(RetResults(p.Ret)[1])
